@@ -163,6 +163,7 @@ func runSimU(w *tr.W, rng *rand.Rand, variant string, shards int) {
 	var wg sync.WaitGroup
 	var finished, ready, open int32
 	total := 0
+	spin := 30 + rng.Intn(3000) // length of the newcomers' critical sections: some outlast the holders' unlocks
 	caller := func(id int, ks []int, m string, multi, atBarrier bool) {
 		defer wg.Done()
 		if atBarrier {
@@ -173,7 +174,7 @@ func runSimU(w *tr.W, rng *rand.Rand, variant string, shards int) {
 		r := guard(func() {
 			l.lock(ks, m, multi)
 			logf(tr.E{"ev": "mon", "kind": "in", "p": id, "ks": ks, "m": m})
-			for j := 0; j < 30; j++ {
+			for j := 0; j < spin; j++ {
 				_ = j
 			}
 			logf(tr.E{"ev": "mon", "kind": "out", "p": id})
